@@ -146,8 +146,9 @@ static void pc_gen_int(pc_case *c, vrng *r, int xr, int yr){
 /* admission test for PLS cases: every scale factor the chosen option will use is far from the library's zero-scale guards
  * (1e-3 fit / 1e-2 apply: C10's business), responses non-constant, preprocessed X of full column rank with cond <= maxcond.
  * Returns 1 if admitted; *cond receives sigma_max/sigma_min of the preprocessed X. */
-static int pc_admit_block(matrix *M, int scaling){
+static int pc_admit_block_skip(matrix *M, int scaling, long skip){
   for(size_t j = 0; j < M->col; j++){
+    if((long)j == skip) continue;
     double mean = 0, mn = M->data[0][j], mx = M->data[0][j], ss = 0;
     for(size_t i = 0; i < M->row; i++){ double v = M->data[i][j]; mean += v; if(v < mn) mn = v; if(v > mx) mx = v; }
     mean /= M->row;
@@ -161,6 +162,7 @@ static int pc_admit_block(matrix *M, int scaling){
   }
   return 1;
 }
+static int pc_admit_block(matrix *M, int scaling){ return pc_admit_block_skip(M, scaling, -1); }
 static int pc_admit(pc_case *c, double maxcond, double *cond){
   if(!pc_admit_block(c->X, c->xs) || !pc_admit_block(c->Y, c->ys)) return 0;
   matrix *X0; dvector *a, *s; NewMatrix(&X0, c->n, c->p); initDVector(&a); initDVector(&s);
